@@ -22,7 +22,7 @@ const (
 	sigInListOrder            = "C07/order-not-sorted/in-list-order"
 	sigDeleteDeleted          = "C07/panic/delete-of-deleted-document-with-index"
 	sigInUnclosed             = "C07/query-panic/in-iterator-left-open"
-	sigBlobMatcher            = "C07/error-only-indexed/blob-value-matcher"
+	sigBlobMatcher            = "C07/error-only-indexed/null-blob-value-matcher"
 	sigRelNe                  = "C07/rows-missing/relation-ne-filter-with-index"
 	sigJSONRootOnLeaves       = "C07/rows-missing/json-root-condition-matched-on-leaves"
 	sigCompositeArrayEmpty    = "C07/rows-missing/composite-index-multivalue-field-without-entry"
@@ -32,10 +32,12 @@ const (
 	sigShowDeletedOrder       = "C07/order-not-sorted/show-deleted-with-index-order"
 	sigPartialUpdate          = "C07/index-entries/partial-document-update-nulls-untouched-indexed-field"
 	sigPartialUpdatePanic     = "C07/panic/partial-document-update-with-unique-index"
+	sigJSONNullDocMissing     = "C07/rows-missing/json-condition-on-absent-path-or-null-json"
+	sigJSONRootScalarMatcher  = "C07/error-only-indexed/json-root-condition-scalar-matcher"
 )
 
 var switchSigs = []string{sigJSONNullPanic, sigAllEmptyArray, sigInDuplicates, sigNlikeNull, sigJSONPathScanErr,
-	sigOrBranch, sigInListOrder, sigDeleteDeleted, sigInUnclosed, sigBlobMatcher, sigRelNe, sigScanOrderLaterKey, sigJSONRootOnLeaves, sigCompositeArrayEmpty, sigCompositeArrayDup, sigInvertedJoinDropsConds, sigInNullUnique, sigShowDeletedOrder, sigPartialUpdate, sigPartialUpdatePanic}
+	sigOrBranch, sigInListOrder, sigDeleteDeleted, sigInUnclosed, sigBlobMatcher, sigRelNe, sigScanOrderLaterKey, sigJSONRootOnLeaves, sigCompositeArrayEmpty, sigCompositeArrayDup, sigInvertedJoinDropsConds, sigInNullUnique, sigShowDeletedOrder, sigPartialUpdate, sigPartialUpdatePanic, sigJSONNullDocMissing, sigJSONRootScalarMatcher}
 
 func pick[T any](t *rapid.T, label string, xs []T) T {
 	return xs[rapid.IntRange(0, len(xs)-1).Draw(t, label)]
@@ -125,7 +127,7 @@ func (g *gen) value(f FieldDef, nullPercent int) string {
 		return "@owner" + strconv.Itoa(rapid.IntRange(0, len(ownerNames)-1).Draw(t, "owner"))
 	}
 	if chance(t, "null", nullPercent) {
-		if f.Kind == "json" && g.avoid(sigJSONNullPanic) && g.hasJSONIndex() {
+		if f.Kind == "json" && (g.avoid(sigJSONNullPanic) || g.avoid(sigJSONNullDocMissing)) && g.hasJSONIndex() {
 			return `{"h":1}`
 		}
 		return "null"
@@ -153,7 +155,9 @@ func (g *gen) doc(create bool) map[string]string {
 	d := map[string]string{}
 	if create {
 		for _, f := range g.active {
-			if chance(g.t, "absent", 20) {
+			jsonMustBeSet := f.Kind == "json" && g.hasJSONIndex() &&
+				(g.avoid(sigJSONNullPanic) || g.avoid(sigJSONNullDocMissing))
+			if chance(g.t, "absent", 20) && !jsonMustBeSet {
 				continue
 			}
 			d[f.Name] = g.value(f, 12)
@@ -483,7 +487,7 @@ func (g *gen) leaf() *F {
 				leaf.Vals = dedupe(leaf.Vals)
 			}
 		}
-		if len(leaf.Path) == 0 && leaf.Arr == "" && g.avoid(sigJSONRootOnLeaves) && leaf.Cmp != "_eq" && leaf.Cmp != "_in" {
+		if len(leaf.Path) == 0 && leaf.Arr == "" && (g.avoid(sigJSONRootOnLeaves) || g.avoid(sigJSONRootScalarMatcher)) && leaf.Cmp != "_eq" && leaf.Cmp != "_in" {
 			leaf.Cmp, leaf.Cmp2, leaf.Val2 = "_eq", "", ""
 			if leaf.Val == "" {
 				leaf.Val = "1"
